@@ -4,7 +4,8 @@ import lib, profiles, render
 import c05, c04
 
 CONFIGS = {
-    "c": [[]], "cpp": [[]], "dart": [[]], "demo_gen": [[]],
+    "c": [[]], "cpp": [[]], "dart": [[]],
+    "demo_gen": [[], ["demo_gen.explicit_generation=true"], ["demo_gen.hide_default_renderer=true"], ["demo_gen.module_name=somemod"]],
     "js": [[], ["js.abi=legacy"], ["js.abi=spec"]],
     "kotlin": [[], ["kotlin.use_finalizers_not_cleaners=true"]],
     "nanobind": [[], ["lib_name=otherlib"]],
@@ -89,6 +90,25 @@ def extra_items():
              "        pub fn next(&mut self) -> Option<u8> { None }\n    }\n    #[diplomat::opaque]\n    pub struct Ib%d(u8);\n    impl Ib%d {\n"
              "        #[diplomat::attr(auto, iterable)]\n        pub fn iter<'a>(&'a self) -> Box<It%d> { todo!() }\n    }\n" % (i, i, i, i, i),
              "Ib%d::iter" % i, "special combo: iterable returning an iterator type")
+    # demo attributes (read by demo_gen only, under its non-default configuration keys as well): which write-out methods are
+    # marked `generate`, a default constructor, labelled inputs, an external type, a custom function file
+    G = "        #[diplomat::demo(generate)]\n"
+    for g1 in ("", G):
+        for g2 in ("", G):
+            i = k[0]
+            add_item("    #[diplomat::opaque]\n    pub struct Dm%d(u8);\n    impl Dm%d {\n        #[diplomat::demo(default_constructor)]\n"
+                     "        pub fn make(v: u8) -> Box<Dm%d> { todo!() }\n%s        pub fn show(&self, w: &mut DiplomatWrite) {}\n"
+                     "%s        pub fn show2(&self, #[diplomat::demo(input(label = \"Amount\", default_value = 3))] a: u8, w: &mut DiplomatWrite) {}\n"
+                     "        pub fn plain(&self) -> u8 { 0 }\n    }\n" % (i, i, i, g1, g2),
+                     "Dm%d" % i, "demo attrs: generate on %s of two write-out methods" % ("none" if not g1 and not g2 else ("both" if g1 and g2 else ("first" if g1 else "second"))))
+    i = k[0]
+    add_item("    #[diplomat::demo(external)]\n    #[diplomat::opaque]\n    pub struct Dx%d(u8);\n    #[diplomat::opaque]\n    pub struct Dy%d(u8);\n"
+             "    impl Dy%d {\n        pub fn show(&self, x: &Dx%d, w: &mut DiplomatWrite) {}\n    }\n" % (i, i, i, i), "Dy%d::show" % i, "demo attrs: external parameter type")
+    i = k[0]
+    add_item("    pub struct Dc%d {\n        #[diplomat::demo(input(label = \"First\"))]\n        pub a: u8,\n        pub b: bool,\n    }\n"
+             "    #[diplomat::demo(custom_func = \"custom.mjs\")]\n    #[diplomat::opaque]\n    pub struct Dd%d(u8);\n    impl Dd%d {\n"
+             "        pub fn show(&self, c: Dc%d, w: &mut DiplomatWrite) {}\n        pub fn fallible(&self, w: &mut DiplomatWrite) -> Result<(), En> { Ok(()) }\n    }\n" % (i, i, i, i),
+             "Dd%d::show" % i, "demo attrs: labelled struct field, custom_func type, write-out returning Result<(), En>")
     for p in ["char", "&[i64]", "Option<char>", "&[bool]", "&[char]", "Box<[u8]>", "Box<str>", "Box<DiplomatStr16>",
               "&[DiplomatStrSlice]", "&[DiplomatStr16Slice]", "&[DiplomatUtf8StrSlice]", "Option<&[DiplomatStrSlice]>",
               "Option<Box<[u8]>>", "Option<Box<str>>"]:
